@@ -393,9 +393,14 @@ type fakeIPInfo struct {
 	Answers map[string]ipinfo.IPInfo
 	Errs    map[string]bool
 	Asked   []string
+	// Latency of a lookup (virtual time; only inside a run)
+	Latency time.Duration
 }
 
 func (f *fakeIPInfo) GetIPInfo(ip net.IP) (ipinfo.IPInfo, error) {
+	if f.Latency > 0 && simrt.S != nil && simrt.Cur() != nil {
+		simrt.Sleep(f.Latency)
+	}
 	f.Asked = append(f.Asked, ip.String())
 	if f.Errs[ip.String()] {
 		// possibly a partial failure: some fields filled in, plus an error
